@@ -3,3 +3,5 @@ import CpProofs.Enum
 import CpProofs.Codec
 import CpProofs.Codec2
 import CpProofs.Reader
+import CpProofs.Mpint
+import CpProofs.Flags
